@@ -237,6 +237,13 @@ def lean_obligations(pid, thorough=False):
             if bad:
                 res.broken.append((m, "forbidden token %r" % bad.group(0).strip()))
     cmd = ["lake", "build", module]
+    # modules imported by the driver only (they must be compiled before `lean --run` can load them)
+    dpath = os.path.join(LEAN_DIR, "Drivers", pid + ".lean")
+    if os.path.exists(dpath):
+        for line in open(dpath):
+            mm = re.match(r"\s*import\s+(RtcVerif\.\S+)", line)
+            if mm and mm.group(1) not in cmd:
+                cmd.append(mm.group(1))
     res.cmds.append("cd lean && " + " ".join(cmd))
     with lake_lock():
         try:
